@@ -61,6 +61,7 @@ class Ref:
         self.rec_epoch = 0
         self.tried = []          # candidates evaluated
         self.losers = {}         # one-of consumer -> losing candidates
+        self.tried_of = {}       # (consumer, pname) -> candidates evaluated, in order
         self.ctx = []            # stack of candidate ids being evaluated
         self.dyn = set()         # dynamic hostile-family tags (facts about program x input)
         self.fail_ctx = {}       # failed node -> set of candidate contexts it was demanded from
@@ -225,6 +226,9 @@ class Ref:
         if k == 'oneof':
             for c in m[1]:
                 self.tried.append(c)
+                self.tried_of.setdefault((consumer, pname), [])
+                if c not in self.tried_of[(consumer, pname)]:
+                    self.tried_of[(consumer, pname)].append(c)
                 self.ctx.append(c)
                 try:
                     o = self.eval_node(c)
